@@ -974,7 +974,15 @@ impl<'a> G<'a> {
             && (f.frame > 0 || f.st.defined & bit(f.acc) != 0)
             && self.want(Inject::ReadUnassigned, f)
         {
-            let l = if f.st.defined & bit(f.acc) != 0 && self.rng.chance(0.3) {
+            let l = if f.is_main && f.calls_emitted == 0 && f.st.defined & bit(f.acc) != 0 && self.rng.chance(0.4) {
+                // top-level code reads the return address: nobody called it, ra was never assigned
+                // (before the first call of the program; a call assigns ra)
+                let l = self.emit_flag(Ins::Alu { op: AluOp::Add, rd: f.acc, rs1: f.acc, rs2: RA }, Flag::ViolOnly);
+                self.injected = true;
+                self.site_out.push(l);
+                self.site_reg = Some(RA);
+                return;
+            } else if f.st.defined & bit(f.acc) != 0 && self.rng.chance(0.3) {
                 // with an innocent sibling: on the other arm of a branch the register is assigned and then
                 // read (clean, in the base program too); only the read on this arm is a violation
                 let l_else = self.label("sib_else");
